@@ -672,7 +672,7 @@ class Model:
         count += 1
         continue
       break
-    # (r8, r12; r14: the last record the phase wrote decides, also when a
+    # (r8, r12; r15: the last record the phase wrote decides, also when a
     # later attempt was skipped by a run_if that turned false)
     if (self.sof and not is_start and last_recorded is not None and
         last_recorded[1] == 'FAIL'):
